@@ -447,12 +447,14 @@ def peelQuad (l : List Str) : List Str × Option (Nat × Nat × Nat × Nat) :=
   | some last => if '.' ∈ last then (l.dropLast, quad? last) else (l, none)
   | none => (l, none)
 
+/-- the only render that could have `s` as its text -/
+def candidate (s : Str) : Render :=
+  match findGap s with
+  | some (l, r) => let (post, q) := peelQuad (items r); ⟨items l, true, post, q⟩
+  | none => let (pre, q) := peelQuad (items s); ⟨pre, false, [], q⟩
+
 def recognise6 (s : Str) : Option Render :=
-  let cand : Render :=
-    match findGap s with
-    | some (l, r) => let (post, q) := peelQuad (items r); ⟨items l, true, post, q⟩
-    | none => let (pre, q) := peelQuad (items s); ⟨pre, false, [], q⟩
-  if cand.wfB ∧ cand.toString = s then some cand else none
+  if (candidate s).wfB = true ∧ (candidate s).toString = s then some (candidate s) else none
 
 /-- model of `inet_pton(AF_INET6, s)` -/
 def pton6 (s : Str) : Option (List Nat) := (recognise6 s).map Render.value
